@@ -136,9 +136,16 @@ def ev(e, I: Interp, mode="strict"):
             if v is UNDEF:
                 return UNDEF
             args.append(v)
-        r = e.interpreted_function().function(*args)
+        ifun = e.interpreted_function()
+        # user-typed arguments / results travel as library Objects on the callable's side and as names on ours
+        call_args = []
+        for a, p in zip(args, ifun.signature):
+            call_args.append(I.problem.object(a) if p.type.is_user_type() and isinstance(a, str) else a)
+        r = ifun.function(*call_args)
         if isinstance(r, float):
             r = Fraction(r)
+        if ifun.return_type.is_user_type() and hasattr(r, "name"):
+            return r.name
         return norm(r) if not isinstance(r, bool) else r
     if nt == OK.NOT:
         v = ev(e.arg(0), I, mode)
